@@ -33,6 +33,7 @@ def check(ctx):
         if ctx.only and not re.search(ctx.only, fn): continue
         us = {FIXED + '.0': nmax + 1, CALC + '.0': 201}
         t = to if fn not in ASSUMED_LEMMAS else (120 if quick else 1800)
+        if fn == 'h_calc_monotone' and quick: t = 240
         qs.append(Query(fn, bins[part][0], fn, us, timeout=t, sample=smp, max_unwind={'*': 210}, solver='kissat' if fn not in ASSUMED_LEMMAS else 'kissat'))
         if fn not in ASSUMED_LEMMAS: ws.append(Query('w_' + fn, bins[part][1], fn, us, timeout=to, meta={'of': fn}, expect='witness', max_unwind={'*': 210}))
     res = ctx.run_queries(qs + ws, label='c20')
